@@ -10,6 +10,7 @@ import (
 	"github.com/relab/hotstuff/core"
 	"github.com/relab/hotstuff/core/eventloop"
 	"github.com/relab/hotstuff/core/logging"
+	"github.com/relab/hotstuff/internal/latency"
 	"github.com/relab/hotstuff/internal/proto/hotstuffpb"
 	"github.com/relab/hotstuff/security/blockchain"
 )
@@ -18,8 +19,12 @@ import (
 type VerifService struct{ impl *serviceImpl }
 
 // VerifNewService builds a Server without a gorums server or listener and returns its service handlers.
-func VerifNewService(el *eventloop.EventLoop, logger logging.Logger, config *core.RuntimeConfig, bc *blockchain.Blockchain) *VerifService {
+// With locations (one per replica) the server emulates wide-area latencies, as NewServer does given WithLatencies.
+func VerifNewService(el *eventloop.EventLoop, logger logging.Logger, config *core.RuntimeConfig, bc *blockchain.Blockchain, locations []string) *VerifService {
 	srv := &Server{blockchain: bc, eventLoop: el, logger: logger, config: config, id: config.ID()}
+	if len(locations) > 0 {
+		srv.lm = latency.MatrixFrom(locations)
+	}
 	return &VerifService{impl: &serviceImpl{srv}}
 }
 
